@@ -136,8 +136,8 @@ fn leak_pred(spec: &ModelSpec, predict_tags: bool, store: bool) -> &'static Pred
 impl World {
     pub fn new(tier: Tier) -> Self {
         let raw = vec!["abab", "a", "あaあa𠀋b", "a\r\nbe\u{301}", "", "a\0b"].into_iter().map(String::from).collect();
-        let tok = vec!["ab a", "a/X b/Y/Z", "あ/T a\\ b", " a", "a  b", "a ", "a /x", "", "\\", "a\0"].into_iter().map(String::from).collect();
-        let part = vec!["a|b-a", "a/X|b a/Y/Z", "あ-a b", "a|", "a?b", "", "\0"].into_iter().map(String::from).collect();
+        let tok = vec!["ab a", "a/X b/Y/Z", "あ/T a\\ b", "a//x\\/ b", " a", "a  b", "a ", "a /x", "", "\\", "a\0"].into_iter().map(String::from).collect();
+        let part = vec!["a|b-a", "a/X|b a/Y/Z", "あ-a b", "a//X-b/Y", "a|", "a?b", "", "\0"].into_iter().map(String::from).collect();
         let preds = vec![
             PredInfo { name: "A(no tag models)", p: leak_pred(&model_plain(), false, false), predict_tags: false, store: false },
             PredInfo { name: "B(2 categories, predict_tags)", p: leak_pred(&model_tags2(), true, false), predict_tags: true, store: false },
